@@ -114,7 +114,7 @@ func errText(e error) string {
 }
 
 func runC18(c *mon.Ctx) {
-	c.Rule("objects: valid and rule-breaking claims-sets of both profiles and the P2 extension built by direct assignment / by setters / by decoding CBOR (incl. C04's type-breaking and open-encoding tokens that still decode) / by decoding JSON, and Evidence obtained by decoding COSE (also messages with an unusual header layout: empty protected header, empty-map protected header, algorithm only in the unprotected header, algorithm as text, further labels, no algorithm but other labels) and by signing. On each object a random sequence of 1..30 read-side calls (Validate, the 10 getters, component getters, CBOR/JSON encoding validating and not, generic ValidateClaims, SetClaims of the object on ANOTHER Evidence, the component container's own Validate / Values / IsEmpty / MarshalCBOR / MarshalJSON and each component's Validate; on Evidence: Verify with right / wrong / nil key, GetInstanceID, GetImplementationID, MarshalJSON), every call issued twice. Oracle: (1) the two results of each call are identical (encodings byte-identical); (2) a deep snapshot (reflective dump of every exported and unexported field reachable from the object, pointer addresses and capacities left out, map entries in canonical order; for Evidence including the hidden COSE message) is identical before and after the sequence; (2b) the raw CBOR / JSON encodings handed out for an object, and the Verify outcome of an Evidence, are kept and re-checked after six further objects were processed; (3) decode-from-buffer cases: after the decode the caller's buffer is overwritten with 0x00, 0xFF and random bytes - deep snapshot, every getter result and the Verify outcomes must not change. distinct_nontrivial = distinct (object kind, route, validity class, first calls) signatures")
+	c.Rule("objects: valid and rule-breaking claims-sets of both profiles and the P2 extension built by direct assignment / by setters (also extensions with a pointer-embedded optional claim group and pointer-receiver codecs, with two embedded structs, with an own component type) / by decoding CBOR (incl. C04's type-breaking and open-encoding tokens that still decode) / by decoding JSON, and Evidence obtained by decoding COSE (also messages with an unusual header layout: empty protected header, empty-map protected header, algorithm only in the unprotected header, algorithm as text, further labels, several unknown integer / text labels, no algorithm but other labels) and by signing. On each object a random sequence of 1..30 read-side calls (Validate, the 10 getters, component getters, CBOR/JSON encoding validating and not, generic ValidateClaims, SetClaims of the object on ANOTHER Evidence, the component container's own Validate / Values / IsEmpty / MarshalCBOR / MarshalJSON and each component's Validate; on Evidence: Verify with right / wrong / nil key, GetInstanceID, GetImplementationID, MarshalJSON), every call issued twice. Oracle: (1) the two results of each call are identical (encodings byte-identical); (2) a deep snapshot (reflective dump of every exported and unexported field reachable from the object, pointer addresses and capacities left out, map entries in canonical order; for Evidence including the hidden COSE message) is identical before and after the sequence; (2b) the raw CBOR / JSON encodings handed out for an object, and the Verify outcome of an Evidence, are kept and re-checked after six further objects were processed; (3) decode-from-buffer cases: after the decode the caller's buffer is overwritten with 0x00, 0xFF and random bytes - deep snapshot, every getter result and the Verify outcomes must not change. distinct_nontrivial = distinct (object kind, route, validity class, first calls) signatures")
 	if err := extprof.Register(extprof.ExtP2Name); err != nil {
 		c.Violation("harness/register", err.Error(), nil)
 		return
@@ -159,7 +159,39 @@ func runC18(c *mon.Ctx) {
 		var err error
 		ok := true
 		if pn, pv, fr := mon.Guard(func() {
-			switch r := g.R.Intn(8); r {
+			switch r := g.R.Intn(9); r {
+			case 8:
+				// extensions with unusual struct layouts: an optional claim group
+				// embedded by POINTER (nil = absent; codecs with pointer receivers),
+				// two embedded structs, an own component type
+				a = g.Valid(2)
+				valClass = "valid"
+				switch g.R.Intn(3) {
+				case 0:
+					route = "extension:pointer-embedded-group"
+					x = extprof.NewExtGroupClaims()
+					if g.R.Intn(3) == 0 {
+						x.(*extprof.ExtGroupClaims).VendorGroup = &extprof.VendorGroup{Model: model.SP("m")}
+					}
+					a.Canon, a.Profile = extprof.ExtGroupName, model.SP(extprof.ExtGroupName)
+				case 1:
+					route = "extension:two-embedded-structs"
+					x = extprof.NumberedProfile{Name: "http://example.com/c18/mixin", Base: 3}.GetClaims()
+					a.Canon, a.Profile = "http://example.com/c18/mixin", model.SP("http://example.com/c18/mixin")
+				default:
+					route = "extension:own-component-type"
+					x = extprof.NewExtOwnerClaims()
+					a.Canon, a.Profile = extprof.ExtOwnerName, model.SP(extprof.ExtOwnerName)
+					var scs []psatoken.ISwComponent
+					for j := range a.Comps {
+						scs = append(scs, &extprof.OwnerComponent{SwComponent: *obs.RealComp(&a.Comps[j]), Owner: model.SP("o")})
+					}
+					a.Comps = nil
+					if err = x.SetSoftwareComponents(scs); err != nil {
+						return
+					}
+				}
+				err = obs.SetterApply(x, a)
 			case 0:
 				route = "direct"
 				x, err = obs.Build(a)
@@ -201,7 +233,7 @@ func runC18(c *mon.Ctx) {
 					// the decoder accepts is an Evidence like any other: reading it,
 					// verifying it under several keys, must not change it)
 					if env, perr := refcose.Parse(buf); perr == nil {
-						v := g.R.Intn(6)
+						v := g.R.Intn(7)
 						route = fmt.Sprintf("evidence-decoded-cose-header-variant-%d", v)
 						algNode := refcbor.I(-7)
 						switch v {
@@ -215,6 +247,9 @@ func runC18(c *mon.Ctx) {
 							buf = sign1Bytes(refcbor.Encode(refcbor.MapOf(refcbor.I(1), refcbor.Tstr("ES256"))), nil, env.Payload, env.Signature)
 						case 4: // further labels next to the algorithm
 							buf = sign1Bytes(refcbor.Encode(refcbor.MapOf(refcbor.I(1), algNode, refcbor.I(4), refcbor.Bstr([]byte("kid")), refcbor.I(3), refcbor.Tstr("application/eat-cwt"))), refcbor.MapOf(refcbor.I(4), refcbor.Bstr([]byte("kid2"))), env.Payload, env.Signature)
+						case 6: // several parameters the library has no use for, integer and text labels
+							buf = sign1Bytes(refcbor.Encode(refcbor.MapOf(refcbor.I(1), algNode, refcbor.I(3), refcbor.Tstr("application/eat-cwt"), refcbor.I(5), refcbor.Bstr([]byte("0123456789ab")),
+								refcbor.I(100), refcbor.U(1), refcbor.I(-65537), refcbor.Tstr("v"), refcbor.Tstr("vendor"), refcbor.U(2), refcbor.Tstr("other"), refcbor.Bstr([]byte{1}))), nil, env.Payload, env.Signature)
 						default: // protected header without algorithm but with other labels
 							buf = sign1Bytes(refcbor.Encode(refcbor.MapOf(refcbor.I(4), refcbor.Bstr([]byte("kid")))), nil, env.Payload, env.Signature)
 						}
